@@ -18,7 +18,7 @@
 
     [voi_fix] selects the code with fixes/C20-voi-external.diff (the variable of integration is un-marked when the
     message "cannot be used as an external variable" is issued; it is recognised through its internal variable);
-    [sibling_fix] the code with fixes/C20-nla-sibling-dependencies.diff.
+    [sibling_fix] the code with fixes/C20-nla-sibling-dependencies.diff; [nla_dep_fix] fixes/C20-nla-external-dependency.diff.
 
     No proofs here. *)
 From Coq Require Import List Bool Arith PeanoNat.
@@ -125,7 +125,20 @@ Definition check_step (fixed : bool) (s : system) (voi : option vref) (acc : lis
     marks (in addition to the ERROR-level issues inside the outcome), AnalyserModel::hasExternalVariables(). *)
 Record xresult := mkXresult { xr_outcome : outcome; xr_messages : list xissue; xr_has_ext : bool }.
 
-Definition analyse_x (fixed : bool) (s : system) (marks : list xmark) : xresult :=
+(** DEFECT C20-nla-external-dependency.  An external variable pruned from the unknowns of an NLA equation gets its
+    placeholder equation "so that the NLA equation can have a dependency on it", but check() had dropped that dependency
+    (the variable was an unknown of the equation) and nothing restored it.  [dfx = true] is the code with
+    fixes/C20-nla-external-dependency.diff: in the pruning block of analyseModel the pruned variables are pushed onto
+    mDependencies.  (nla_group does not look at ie_deps, so this is the same as doing it just before.) *)
+Definition nla_ext_deps (dfx : bool) (ivs : list ivar) (e : ieq) : ieq :=
+  if dfx && is_nla e
+  then mkIeq (ie_id e) (ie_comp e) (ie_type e) (ie_lhs e) (ie_rhs e) (ie_diffs e)
+             (ie_deps e ++ map (fun p => iv_var (geti ivs p)) (filter (fun p => iv_external (geti ivs p)) (ie_unknown e)))
+             (ie_vars e) (ie_odes e) (ie_all e) (ie_unknown e) (ie_nla e) (ie_sibs e) (ie_tc e) (ie_vc e)
+  else e.
+Definition nla_dep_fix : bool := false.   (* the repair was tried and withdrawn: see known finding C20-nla-external-dependency *)
+
+Definition analyse_xg (fixed dfx : bool) (s : system) (marks : list xmark) : xresult :=
   if negb (resolvable s) then mkXresult Malformed [] false else
   match build s with
   | None => mkXresult Malformed [] false
@@ -142,12 +155,15 @@ Definition analyse_x (fixed : bool) (s : system) (marks : list xmark) : xresult 
               match loop s (loop_fuel es0) 1 false (mkCs ivs2 0 0) es0 with
               | None => mkXresult OutOfFuel (xi1 ++ xi2) false
               | Some (st, es1) =>
-                  let r := finish s (vs_voi vst) (cs_ivs st) es1 (cs_vidx st) in
+                  let r := finish s (vs_voi vst) (cs_ivs st) (map (nla_ext_deps dfx (cs_ivs st)) es1) (cs_vidx st) in
                   mkXresult (Done r) (xi1 ++ xi2) (valid_type (r_type r) && existsb iv_external ivs2)
               end
           end
       end
   end.
+
+(* [fixed = true]: the repaired analyser (both analyser patches); [false]: the code before them *)
+Definition analyse_x (fixed : bool) (s : system) (marks : list xmark) : xresult := analyse_xg fixed (fixed && nla_dep_fix) s marks.
 
 Definition analyse_marked (s : system) (marks : list xmark) : xresult := analyse_x voi_fix s marks.
 
